@@ -2093,6 +2093,11 @@ def simthr_cases(chk):
                 "dyadic": True})
     out.append({"dist": [[[2, 2], [1, 2]], [[0, 2], [1, 2]]], "dets": [P2, {"k": "ppnr", "w": 4, "max": None}], "minph": None,
                 "thr": [0, 1], "minp": [1, 4], "dyadic": True})
+    # a contribution p*p_out below a changed min_p is not accumulated
+    out.append({"dist": [[[2, 1], [1, 1000]], [[1, 1], [999, 1000]]], "dets": [P2, {"k": "thr"}], "minph": None,
+                "thr": [0, 1], "minp": [1, 100]})
+    out.append({"dist": [[[3, 1], [1, 500]], [[0, 1], [499, 500]]], "dets": [{"k": "ppnr", "w": 3, "max": None}, None],
+                "minph": 1, "thr": [1, 100000], "minp": [1, 100]})
     # one mode: the threshold is never applied; uniform lists never read it
     for _ in range(chk.pick(4, 20)):
         d = gen_det(rng, rng.choice(["interleaved", "bs"]))
